@@ -68,6 +68,9 @@ def run_(tier):
 
     jobs = [lambda v=v: impl(v) for v in VARIANTS] + [lambda v=v: contract(v) for v in VARIANTS]
     jobs.append(lambda: deep(c, "ecache"))
+    # one ExpirableCache kept in use for more than a quarter of a minute of real time (runs alongside the TLC jobs)
+    long_trace = c.path("trace", "lru-longlived.ndjson")
+    jobs.append(lambda: c.run_vh(["drive", "lru", "-seed", c.seed, "-out", long_trace, "-x", "mode=longlived"], timeout=300) and None)
     if not c.quick():
         jobs += [lambda: deep(c, "expirable"), lambda: simulate(c, 8, "ecache", 300), lambda: simulate(c, 64, "expirable", 300),
                  lambda: simulate(c, 64, "cache", 500)]
@@ -93,6 +96,8 @@ def run_(tier):
     steps = 250 if c.quick() else 400
     trace = c.path("trace", "lru.ndjson")
     c.run_vh(["drive", "lru", "-seed", c.seed, "-n", ntr, "-out", trace, "-x", "steps=%d" % steps])
+    with open(trace, "a") as f:      # every trace starts with a New line: simply appended
+        f.write(open(long_trace).read())
     cfg = c.write_cfg("lru", "LRUTrace", invariants=["Bounded"], postcondition="Accepted")
     ok, at, res = c.validate_trace("lru", "LRUTrace", cfg, trace, timeout=1500)
     lines = open(trace).read().splitlines()
